@@ -2856,6 +2856,11 @@ static Type *struct_decl(Token **rest, Token *tok) {
       bits += mem->ty->size * 8;
     }
 
+    // Unnamed bit-fields affect the position of what follows them,
+    // but not the alignment of the struct.
+    if (mem->is_bitfield && !mem->name)
+      continue;
+
     if (!ty->is_packed && ty->align < mem->align)
       ty->align = mem->align;
   }
